@@ -324,7 +324,7 @@ var specs = map[string]Spec{
 		MaxSamples:  3,
 	},
 	"C10": {
-		ExtraEngine: "wire", ExtraRun: "^(TestMuxEstablisher|TestMuxReceiver)$", ExtraRace: true, ExtraShards: 10,
+		ExtraEngine: "wire", ExtraRun: "^(TestMuxEstablisher|TestMuxReceiver)$", ExtraRace: true, ExtraShards: 10, CaseTimeoutS: 240,
 		Engine: "muxsim", Run: "^TestMux$", Race: true,
 		RaceViolation: regexp.MustCompile(`multiMuxManager\)\.(AddConnection|unregisterMux|GetMuxConnections|notifyChange|onClose)`),
 		HangViolation: regexp.MustCompile(`mux\.\(\*multiMuxManager\)\.`),
@@ -341,7 +341,7 @@ var specs = map[string]Spec{
 		MaxSamples:  2,
 	},
 	"C09": {
-		ExtraEngine: "wire", ExtraRun: "^(TestClusterRouting|TestPeerSender)$", ExtraRace: true, ExtraShards: 4,
+		ExtraEngine: "wire", ExtraRun: "^(TestClusterRouting|TestPeerSender)$", ExtraRace: true, ExtraShards: 4, CaseTimeoutS: 240,
 		Engine: "gossip", Run: "^TestConvergence$", Race: true,
 		RaceViolation: regexp.MustCompile(`shardManagerImpl\)|shardDelegate\)|shardEventDelegate\)`), RaceOnTopFrames: true,
 		QuickShards: 16, ThoroughShards: 16, QuickWatchdog: 10 * time.Minute, ThoroughWatchdog: 60 * time.Minute,
